@@ -1,6 +1,324 @@
-/- helper lemmas for TjdProps/C03.lean (QP / KKT / Gramian) -/
+/- helper lemmas for TjdProps/C03.lean (QP / KKT / Gramian): UPGrad / DualProj level.
+   Lower layers: QPBridge (list ↔ `Fin m → α`), QPKkt (KKT ⇒ minimiser, uniqueness),
+   QPGram (regularised normalised Gramian). -/
 import Mathlib.Algebra.Order.Field.Basic
 import TjdModel.Agg.Spec
+import TjdLemmas.QPBridge
+import TjdLemmas.QPKkt
+import TjdLemmas.QPGram
 namespace Tjd.Agg
+open Tjd Matrix
+set_option linter.unusedSectionVars false
+set_option linter.unusedSimpArgs false
+
+variable {α : Type} [Field α] [LinearOrder α] [IsStrictOrderedRing α]
+
+theorem qpProject_isQPMin (G : Mat α) (m : Nat) (hS : SymmSquare G m) (hP : PosDef G m)
+    (u w : Vec α) (hu : u.length = m) (mg : α) (h : qpProject G u = some (w, mg)) :
+    IsQPMin G u w :=
+  isQPMin_of_kktCheck G m hS (psd_of_pd G m hP) u w hu (qpProject_kkt G u w mg h)
+
+theorem all_isSome_map_some {β : Type} : ∀ (l : List (Option β)), l.all Option.isSome = true →
+    (l.filterMap id).map some = l
+  | [], _ => rfl
+  | none :: l, h => by simp at h
+  | some a :: l, h => by
+    simp only [List.all_cons, Option.isSome_some, Bool.true_and] at h
+    rw [List.filterMap_cons_some (by rfl : id (some a) = some a), List.map_cons,
+      all_isSome_map_some l h]
+
+/-- unit vector scaled by `u_i` -/
+def scaledUnit (u : Vec α) (i : Nat) : Vec α :=
+  (List.range u.length).map fun j => if j = i then u.getD i 0 else 0
+
+theorem upgrad_rows (J : Mat α) (s normEps regEps : α) (u w : Vec α) (mg : α)
+    (h : upgradWeights J s normEps regEps u = some (w, mg)) :
+    ∃ ws : List (Vec α), ws.length = u.length ∧ w = vsum u.length ws ∧
+      ∀ i, i < u.length → ∃ mg', qpProject (regNormGram J s normEps regEps) (scaledUnit u i) =
+        some (ws.getD i [], mg') := by
+  unfold upgradWeights at h
+  simp only at h
+  split at h
+  · rename_i hall
+    have hmap := all_isSome_map_some _ hall
+    simp only [Option.some.injEq, Prod.mk.injEq] at h
+    generalize hps : List.filterMap id _ = ps at hmap h
+    have hlen : ps.length = u.length := by
+      have := congrArg List.length hmap
+      simpa using this
+    refine ⟨ps.map (·.1), by simpa using hlen, h.1.symm, fun i hi => ?_⟩
+    refine ⟨(ps.getD i ([], 0)).2, ?_⟩
+    have := congrArg (fun l => l[i]?) hmap
+    simp only [List.getElem?_map, List.getElem?_range hi, Option.map_some, Option.some.injEq,
+      List.getElem?_eq_getElem (hlen ▸ hi : i < ps.length)] at this
+    rw [scaledUnit, ← this]
+    simp [List.getD_eq_getElem?_getD, List.getElem?_eq_getElem (hlen ▸ hi : i < ps.length)]
+  · simp at h
+
+theorem vadd_getD (x y : Vec α) (h : x.length = y.length) (k : Nat) :
+    (vadd x y).getD k 0 = x.getD k 0 + y.getD k 0 :=
+  congrFun (toFn_vadd (k + 1) x y h) ⟨k, Nat.lt_succ_self k⟩
+
+theorem smul_getD (c : α) (x : Vec α) (k : Nat) : (smul c x).getD k 0 = c * x.getD k 0 :=
+  congrFun (toFn_smul (k + 1) c x) ⟨k, Nat.lt_succ_self k⟩
+
+theorem zeros_length (n : Nat) : (zeros n : Vec α).length = n := by simp [zeros]
+
+theorem zeros_getD (n k : Nat) : (zeros n : Vec α).getD k 0 = 0 := by
+  simp only [zeros, List.getD_eq_getElem?_getD, List.getElem?_replicate]
+  split_ifs <;> simp
+
+theorem toFn_zeros (m n : Nat) : toFn m (zeros n : Vec α) = 0 := by
+  funext i; exact zeros_getD n i
+
+theorem foldl_vadd_getD (n k : Nat) : ∀ (m : Nat) (xs : List (Vec α)) (acc : Vec α),
+    xs.length = m → acc.length = n → (∀ x ∈ xs, x.length = n) →
+    (xs.foldl vadd acc).length = n ∧
+      (xs.foldl vadd acc).getD k 0 = acc.getD k 0 + ∑ i : Fin m, (xs.getD i []).getD k 0
+  | m, [], acc, hm, hacc, _ => by
+    simp at hm; subst hm; simp [hacc]
+  | 0, _ :: _, _, hm, _, _ => by simp at hm
+  | m + 1, x :: xs, acc, hm, hacc, hall => by
+    have hx : x.length = n := hall x (by simp)
+    have hacc' : (vadd acc x).length = n := by rw [vadd_length _ _ (by omega)]; exact hacc
+    obtain ⟨h1, h2⟩ := foldl_vadd_getD n k m xs (vadd acc x) (by simpa using hm) hacc'
+      (fun y hy => hall y (by simp [hy]))
+    refine ⟨h1, ?_⟩
+    rw [List.foldl_cons, h2, vadd_getD _ _ (by omega), Fin.sum_univ_succ]
+    simp [add_assoc]
+
+theorem vsum_length (n : Nat) (xs : List (Vec α)) (hall : ∀ x ∈ xs, x.length = n) :
+    (vsum n xs).length = n :=
+  (foldl_vadd_getD n 0 xs.length xs (zeros n) rfl (zeros_length n) hall).1
+
+theorem toFn_vsum (m n : Nat) (xs : List (Vec α)) (hlen : xs.length = m)
+    (hall : ∀ x ∈ xs, x.length = n) :
+    toFn n (vsum n xs) = ∑ i : Fin m, toFn n (xs.getD i []) := by
+  funext k
+  rw [toFn_apply, vsum, (foldl_vadd_getD n k m xs (zeros n) hlen (zeros_length n) hall).2,
+    zeros_getD, zero_add, Finset.sum_apply]
+  rfl
+
+theorem foldl_vadd_induction (P : Vec α → Prop) (n : Nat)
+    (hadd : ∀ x y, x.length = n → y.length = n → P x → P y → P (vadd x y)) :
+    ∀ (xs : List (Vec α)) (acc : Vec α), acc.length = n → P acc →
+      (∀ x ∈ xs, x.length = n ∧ P x) → P (xs.foldl vadd acc)
+  | [], acc, _, h, _ => h
+  | x :: xs, acc, hacc, h, hall => by
+    have hx := hall x (by simp)
+    rw [List.foldl_cons]
+    apply foldl_vadd_induction P n hadd xs
+    · rw [vadd_length _ _ (by omega)]; exact hacc
+    · exact hadd acc x hacc hx.1 h hx.2
+    · exact fun y hy => hall y (by simp [hy])
+
+theorem toFn_combine (J : Mat α) (m n : Nat) (hJ : MatWF J m n) (w : Vec α) (hw : w.length = m) :
+    toFn n (combine n J w) = toFn m w ᵥ* toMat m n J := by
+  have hlen : (List.zipWith smul w J).length = m := by simp [hw, hJ.1]
+  have hall : ∀ x ∈ List.zipWith smul w J, x.length = n := by
+    intro x hx
+    obtain ⟨i, hi, rfl⟩ := List.mem_iff_getElem.mp hx
+    rw [List.getElem_zipWith, smul_length]
+    exact hJ.2 _ (List.getElem_mem _)
+  rw [combine, toFn_vsum m n _ hlen hall]
+  funext k
+  rw [Finset.sum_apply]
+  apply Finset.sum_congr rfl
+  intro i _
+  have hi1 : (i : Nat) < w.length := by omega
+  have hi2 : (i : Nat) < J.length := by rw [hJ.1]; exact i.2
+  simp only [toFn, toMat, List.getD_eq_getElem?_getD]
+  rw [List.getElem?_eq_getElem (l := List.zipWith smul w J) (i := (i : Nat)) (by simp [hi1, hi2]),
+    List.getElem_zipWith,
+    List.getElem?_eq_getElem hi1, List.getElem?_eq_getElem hi2]
+  simp only [Option.getD_some]
+  have := smul_getD w[(i : Nat)] J[(i : Nat)] k
+  simp only [List.getD_eq_getElem?_getD] at this
+  rw [this]
+
+theorem map_getD_lt {β : Type} [Zero β] (g : α → β) (w : Vec α) (i : Nat) (hi : i < w.length) :
+    (w.map g).getD i 0 = g (w.getD i 0) := by
+  simp [List.getD_eq_getElem?_getD, List.getElem?_eq_getElem hi]
+
+/-- dual feasibility `0 ≤ G w` ⇒ non-conflict up to `reg_eps · s² · w_i` -/
+theorem nonconflict_of_dual (J : Mat α) (m n : Nat) (hJ : MatWF J m n) (s normEps regEps : α)
+    (hs : normEps ≤ s) (hs0 : 0 < s) (w : Vec α) (hw : w.length = m)
+    (hdual : 0 ≤ toMat m m (regNormGram J s normEps regEps) *ᵥ toFn m w) :
+    NonConflictUpTo J (combine n J w) (w.map fun wi => regEps * (s * s) * wi) := by
+  intro i hi
+  have hi' : i < m := by rw [← hJ.1]; exact hi
+  have hrow : (J.getD i []).length = n := hJ.2 _ (getD_mem J [] i hi)
+  rw [map_getD_lt _ w i (by omega), dot_eq_left n _ _ hrow.le, toFn_combine J m n hJ w hw]
+  have h := hdual ⟨i, hi'⟩
+  rw [toMat_regNormGram J m n hJ, add_mulVec, smul_mulVec, smul_mulVec, one_mulVec,
+    ← mulVec_mulVec, mulVec_transpose] at h
+  simp only [Pi.zero_apply, Pi.add_apply, Pi.smul_apply, smul_eq_mul, gramCoef, not_lt.mpr hs,
+    if_false] at h
+  have hss : 0 < s * s := mul_pos hs0 hs0
+  have h2 := mul_nonneg hss.le h
+  rw [mul_add, ← mul_assoc, mul_inv_cancel₀ hss.ne', one_mul] at h2
+  have e : toFn n (J.getD i []) ⬝ᵥ (toFn m w ᵥ* toMat m n J) =
+      (toMat m n J *ᵥ (toFn m w ᵥ* toMat m n J)) ⟨i, hi'⟩ := rfl
+  rw [e]
+  have e2 : toFn m w ⟨i, hi'⟩ = w.getD i 0 := rfl
+  rw [e2] at h2
+  linarith
+
+theorem isQPMin_self_of_nonneg (G : Mat α) (m : Nat) (hS : SymmSquare G m) (hP : PosDef G m)
+    (hG : ∀ a b, a < m → b < m → 0 ≤ (G.getD a []).getD b 0) (u : Vec α) (hu : u.length = m)
+    (hu0 : ∀ i, i < m → 0 ≤ u.getD i 0) : IsQPMin G u u := by
+  apply isQPMin_of_kkt G m hS (psd_of_pd G m hP) u u hu hu ⟨rfl, fun i _ => le_rfl⟩
+  · intro i hi
+    rw [dot_eq_sum_right m _ _ hu.le]
+    exact Finset.sum_nonneg fun j _ => mul_nonneg (hG i j hi j.2) (hu0 j j.2)
+  · rw [dot_eq_left m _ _ (by rw [vsub_length _ _ rfl]; omega), toFn_vsub m u u rfl, sub_self,
+      zero_dotProduct]
+
+theorem qpProject_eq_self (G : Mat α) (m : Nat) (hS : SymmSquare G m) (hP : PosDef G m)
+    (hG : ∀ a b, a < m → b < m → 0 ≤ (G.getD a []).getD b 0) (u : Vec α) (hu : u.length = m)
+    (hu0 : ∀ i, i < m → 0 ≤ u.getD i 0) (w : Vec α) (mg : α)
+    (h : qpProject G u = some (w, mg)) : w = u :=
+  isQPMin_unique G m hS hP u w u hu (qpProject_isQPMin G m hS hP u w hu mg h)
+    (isQPMin_self_of_nonneg G m hS hP hG u hu hu0)
+
+theorem scaledUnit_length (u : Vec α) (i : Nat) : (scaledUnit u i).length = u.length := by
+  simp [scaledUnit]
+
+theorem scaledUnit_getD (u : Vec α) (i k : Nat) (hk : k < u.length) :
+    (scaledUnit u i).getD k 0 = if k = i then u.getD i 0 else 0 := by
+  simp [scaledUnit, List.getD_eq_getElem?_getD, List.getElem?_range hk]
+
+theorem vsum_scaledUnits (u : Vec α) (ws : List (Vec α)) (hlen : ws.length = u.length)
+    (h : ∀ i, i < u.length → ws.getD i [] = scaledUnit u i) : vsum u.length ws = u := by
+  have hall : ∀ x ∈ ws, x.length = u.length := by
+    intro x hx
+    obtain ⟨i, hi, rfl⟩ := List.mem_iff_getElem.mp hx
+    have := h i (by omega)
+    rw [List.getD_eq_getElem?_getD, List.getElem?_eq_getElem hi, Option.getD_some] at this
+    rw [this, scaledUnit_length]
+  apply toFn_injective u.length _ _ (vsum_length _ ws hall) rfl
+  rw [toFn_vsum u.length u.length ws hlen hall]
+  funext k
+  rw [Finset.sum_apply]
+  have : ∀ i : Fin u.length, toFn u.length (ws.getD i []) k = if k = i then toFn u.length u i else 0 := by
+    intro i
+    rw [h i i.2, toFn_apply, scaledUnit_getD u i k k.2]
+    simp only [Fin.ext_iff]
+    rfl
+  simp only [this]
+  simp
+
+/-- hypotheses under which the regularised Gramian has non-negative entries -/
+theorem regNormGram_nonneg (J : Mat α) (m n : Nat) (hJ : MatWF J m n) (s normEps regEps : α)
+    (hre : 0 < regEps)
+    (h : s < normEps ∨ ∀ a b, a < m → b < m → 0 ≤ dot (J.getD a []) (J.getD b [])) (a b : Nat)
+    (ha : a < m) (hb : b < m) : 0 ≤ ((regNormGram J s normEps regEps).getD a []).getD b 0 := by
+  have hm := hJ.1
+  rw [regNormGram_getD J s normEps regEps a b (by omega) (by omega)]
+  have h1 : (0 : α) ≤ if a = b then regEps else 0 := by split_ifs <;> [exact hre.le; exact le_rfl]
+  have h2 : (0 : α) ≤ if s < normEps then 0 else dot (J.getD a []) (J.getD b []) / (s * s) := by
+    split_ifs with hlt
+    · exact le_rfl
+    · rcases h with h | h
+      · exact absurd h hlt
+      · exact div_nonneg (h a b ha hb) (mul_self_nonneg s)
+  linarith
+
+theorem dual_fn_of_kktCheck (G : Mat α) (m : Nat) (u w : Vec α) (hu : u.length = m)
+    (hk : kktCheck G u w = true) : w.length = m ∧ 0 ≤ toMat m m G *ᵥ toFn m w := by
+  obtain ⟨h1, _, _, h4, _⟩ := kktCheck_spec G u w hk
+  have hw : w.length = m := by omega
+  refine ⟨hw, ?_⟩
+  rw [← toFn_matVec m m G w hw.le]
+  intro i
+  rw [toFn_apply, matVec_getD]
+  exact h4 i (by rw [hu]; exact i.2)
+
+theorem dualproj_proj (J : Mat α) (m n : Nat) (hJ : MatWF J m n) (s normEps regEps : α)
+    (hre : 0 < regEps) (u w : Vec α) (hu : u.length = m) (mg : α)
+    (h : dualprojWeights J s normEps regEps u = some (w, mg)) :
+    IsQPMin (regNormGram J s normEps regEps) u w ∧
+    ∀ w', IsQPMin (regNormGram J s normEps regEps) u w' → w' = w := by
+  have hS := regNormGram_symmSquare J m n hJ s normEps regEps
+  have hP := regNormGram_pd J m n hJ s normEps regEps hre
+  have hmin := qpProject_isQPMin _ m hS hP u w hu mg h
+  exact ⟨hmin, fun w' hw' => isQPMin_unique _ m hS hP u w' w hu hw' hmin⟩
+
+theorem upgrad_sum_proj (J : Mat α) (m n : Nat) (hJ : MatWF J m n)
+    (s normEps regEps : α) (hre : 0 < regEps) (u w : Vec α) (hu : u.length = m) (mg : α)
+    (h : upgradWeights J s normEps regEps u = some (w, mg)) :
+    ∃ ws : List (Vec α), ws.length = m ∧ w = vsum m ws ∧
+      ∀ i, i < m →
+        IsQPMin (regNormGram J s normEps regEps)
+          ((List.range m).map fun j => if j = i then u.getD i 0 else 0) (ws.getD i []) := by
+  subst hu
+  have hS := regNormGram_symmSquare J _ n hJ s normEps regEps
+  have hP := regNormGram_pd J _ n hJ s normEps regEps hre
+  obtain ⟨ws, hlen, hw, hrows⟩ := upgrad_rows J s normEps regEps u w mg h
+  refine ⟨ws, hlen, hw, fun i hi => ?_⟩
+  obtain ⟨mg', hq⟩ := hrows i hi
+  exact qpProject_isQPMin _ _ hS hP (scaledUnit u i) _ (scaledUnit_length u i) mg' hq
+
+theorem dualproj_nc (J : Mat α) (m n : Nat) (hJ : MatWF J m n) (s normEps regEps : α)
+    (hs : normEps ≤ s) (hs0 : 0 < s) (u w : Vec α) (hu : u.length = m) (mg : α)
+    (h : dualprojWeights J s normEps regEps u = some (w, mg)) :
+    NonConflictUpTo J (combine n J w) (w.map fun wi => regEps * (s * s) * wi) := by
+  obtain ⟨hw, hd⟩ := dual_fn_of_kktCheck _ m u w hu (qpProject_kkt _ u w mg h)
+  exact nonconflict_of_dual J m n hJ s normEps regEps hs hs0 w hw hd
+
+theorem upgrad_nc (J : Mat α) (m n : Nat) (hJ : MatWF J m n) (s normEps regEps : α)
+    (hs : normEps ≤ s) (hs0 : 0 < s) (u w : Vec α) (hu : u.length = m) (mg : α)
+    (h : upgradWeights J s normEps regEps u = some (w, mg)) :
+    NonConflictUpTo J (combine n J w) (w.map fun wi => regEps * (s * s) * wi) := by
+  subst hu
+  obtain ⟨ws, hlen, hw, hrows⟩ := upgrad_rows J s normEps regEps u w mg h
+  have hall : ∀ x ∈ ws, x.length = u.length ∧
+      0 ≤ toMat u.length u.length (regNormGram J s normEps regEps) *ᵥ toFn u.length x := by
+    intro x hx
+    obtain ⟨i, hi, rfl⟩ := List.mem_iff_getElem.mp hx
+    obtain ⟨mg', hq⟩ := hrows i (by omega)
+    rw [List.getD_eq_getElem?_getD, List.getElem?_eq_getElem hi, Option.getD_some] at hq
+    exact dual_fn_of_kktCheck _ _ (scaledUnit u i) _ (scaledUnit_length u i)
+      (qpProject_kkt _ _ _ mg' hq)
+  have hwl : w.length = u.length := by
+    rw [hw]; exact vsum_length _ ws fun x hx => (hall x hx).1
+  apply nonconflict_of_dual J _ n hJ s normEps regEps hs hs0 w hwl
+  rw [hw, vsum]
+  apply foldl_vadd_induction
+    (fun x => 0 ≤ toMat u.length u.length (regNormGram J s normEps regEps) *ᵥ toFn u.length x)
+    u.length _ ws (zeros u.length) (zeros_length _) _ hall
+  · intro x y hx hy h1 h2
+    show 0 ≤ _
+    rw [toFn_vadd _ x y (by omega), mulVec_add]
+    exact fun i => add_nonneg (h1 i) (h2 i)
+  · show 0 ≤ _
+    rw [toFn_zeros, mulVec_zero]
+
+theorem identity_both (J : Mat α) (m n : Nat) (hJ : MatWF J m n) (s normEps regEps : α)
+    (hre : 0 < regEps) (u : Vec α) (hu : u.length = m) (hu0 : ∀ x ∈ u, 0 ≤ x)
+    (hc : s < normEps ∨ ∀ a b, a < m → b < m → 0 ≤ dot (J.getD a []) (J.getD b []))
+    (w : Vec α) (mg : α) :
+    (dualprojWeights J s normEps regEps u = some (w, mg) → w = u) ∧
+    (upgradWeights J s normEps regEps u = some (w, mg) → w = u) := by
+  subst hu
+  have hS := regNormGram_symmSquare J _ n hJ s normEps regEps
+  have hP := regNormGram_pd J _ n hJ s normEps regEps hre
+  have hG := regNormGram_nonneg J _ n hJ s normEps regEps hre hc
+  have hu0' : ∀ i, i < u.length → 0 ≤ u.getD i 0 := fun i hi => hu0 _ (getD_mem u 0 i hi)
+  constructor
+  · intro h
+    exact qpProject_eq_self _ _ hS hP hG u rfl hu0' w mg h
+  · intro h
+    obtain ⟨ws, hlen, hw, hrows⟩ := upgrad_rows J s normEps regEps u w mg h
+    rw [hw]
+    apply vsum_scaledUnits u ws hlen
+    intro i hi
+    obtain ⟨mg', hq⟩ := hrows i hi
+    apply qpProject_eq_self _ _ hS hP hG (scaledUnit u i) (scaledUnit_length u i) _ _ mg' hq
+    intro k hk
+    rw [scaledUnit_getD u i k hk]
+    split_ifs
+    · exact hu0' i hi
+    · exact le_rfl
 
 end Tjd.Agg
